@@ -304,6 +304,11 @@ var c12xTemplates = []c12xf{
 			"function GT.ba\x01(x) return x end\nfunction GT:ki\x02(y) end\nGT.ba\x01(1)\n",
 			"GT.ba\x01(2)\nGT:ki\x02(3)\n"},
 		[][4]int{{1, 1, 12, 3}, {1, 2, 12, 3}, {1, 3, 3, 3}, {2, 1, 3, 3}, {2, 2, 3, 3}}},
+	// more files than the reference search has workers (3 with one CPU): a global function used in five files
+	{[]string{"lib.lua", "u1.lua", "u2.lua", "u3.lua", "u4.lua", "u5.lua"},
+		[]string{"function Fo\x01(n) return n end\n",
+			"Fo\x01(1)\n", "\nFo\x01(2)\n", "\n\n Fo\x01(3)\n", "local r = Fo\x01(4)\n", "print(Fo\x01(5))\n"},
+		[][4]int{{0, 1, 9, 3}, {1, 1, 0, 3}, {2, 2, 0, 3}, {3, 3, 1, 3}, {4, 1, 10, 3}, {5, 1, 6, 3}}},
 }
 
 func VerifRun_C12d() {
